@@ -91,6 +91,7 @@ class FsmExtractor:
         self.ctx = ctx
         self.prog = prog or ctx.prog
         self.body = self.prog.bodies.get(CLOSURE)
+        self.scope = self._scope()
         self.errors = []
         self.arrivals = {}
         self.sites = []
@@ -205,9 +206,9 @@ class FsmExtractor:
                         evs.append((meth,) + tuple(ev[5][1:]))
                     elif ev[0] == 'input':
                         evs.append(('<-', ev[1]))
-                    elif ev[0] == 'vec.push' and ev[-1] == CLOSURE:
+                    elif ev[0] == 'vec.push' and ev[-1] in self.scope:
                         evs.append(('push', self._arg_desc(eng, s2, ev[2])))
-                    elif ev[0] == 'str.push' and ev[-1] == CLOSURE:
+                    elif ev[0] == 'str.push' and ev[-1] in self.scope:
                         evs.append(('strpush', eng.describe_value(s2, ev[2])))
                 if skip_inputs:
                     # keep only what happened after the prefix inputs
@@ -228,6 +229,10 @@ class FsmExtractor:
                 else:
                     outcomes.add((self.sites.index(bi), tuple(evs), yd))
         return outcomes
+
+    def _scope(self):
+        from .ctx import coroutine_scope
+        return coroutine_scope(self.prog)
 
     def _arg_desc(self, eng, st, a):
         if isinstance(a, RefV):
